@@ -6,6 +6,7 @@ import (
 	"os"
 	"path/filepath"
 	"runtime"
+	"strings"
 	"sync"
 	"sync/atomic"
 	"time"
@@ -14,6 +15,7 @@ import (
 	dawn "github.com/pgavlin/dawn"
 	"github.com/pgavlin/dawn/label"
 	"github.com/pgavlin/dawn/verifharness/core"
+	"github.com/pgavlin/dawn/verifharness/pj"
 	"go.starlark.net/starlark"
 )
 
@@ -273,6 +275,24 @@ func runC20(c *core.Ctx) {
 				c.Violation(caseID, "", "process-died:"+r.FatalKind(), w)
 			}})
 	}
+	// the same cache shared by the parallel targets of real builds
+	var pids []string
+	for i := 0; i < c.N(60, 2000); i++ {
+		if id := fmt.Sprintf("proj/%d", i); c.Want(id) {
+			pids = append(pids, id)
+		}
+	}
+	for _, race := range []bool{true, false} {
+		bin, env := "", []string{}
+		if race {
+			if c.RaceBin == "" {
+				continue
+			}
+			bin = c.RaceBin
+			env = append(env, "GORACE=halt_on_error=0 log_path="+c.Scratch+"/race-C20")
+		}
+		c.RunSharded(pids, core.ShardOpts{Mode: "c20proj", Bin: bin, Workers: 4, CPUs: 4, Timeout: 5 * time.Minute, Env: env})
+	}
 	c.Extra("race_detector_reports", countRaceReports(c, c.Scratch+"/race-C20", "C20"))
 }
 
@@ -283,4 +303,49 @@ func dumpHas(dump, frame string) bool {
 		}
 	}
 	return false
+}
+
+// ---- the cache inside a real parallel build -------------------------------------------------
+
+func init() { registerCase("c20proj", c20ProjCase) }
+
+func c20ProjCase(c *core.Ctx, id string) {
+	r := c.Rand(id)
+	dir := filepath.Join(c.Scratch, fmt.Sprintf("c20p-%d", os.Getpid()))
+	os.RemoveAll(dir)
+	defer os.RemoveAll(dir)
+	s := pj.NewSession(dir)
+	nkeys, ntg := 1+r.IntN(3), 8+r.IntN(40)
+	var b strings.Builder
+	b.WriteString("SHARED = Cache()\n")
+	for k := 0; k < nkeys; k++ {
+		fmt.Fprintf(&b, "def compute_k%d():\n    v.tick(\"once:k%d\")\n    v.pause(\"in-callable\")\n    return \"value-k%d\"\n", k, k, k)
+	}
+	var deps []string
+	for i := 0; i < ntg; i++ {
+		k := r.IntN(nkeys)
+		fmt.Fprintf(&b, "@target()\ndef t%d(self):\n    v.body(\"//:t%d\", [SHARED.once(\"k%d\", compute_k%d)], [], \"\")\n", i, i, k, k)
+		deps = append(deps, fmt.Sprintf("\":t%d\"", i))
+	}
+	fmt.Fprintf(&b, "@target(deps=[%s])\ndef all(self):\n    v.body(\"//:all\", [0], [], \"\")\n", strings.Join(deps, ", "))
+	os.WriteFile(filepath.Join(s.Root, "dawn.toml"), []byte("name = \"c20\"\n"), 0o644)
+	os.WriteFile(filepath.Join(s.Root, "BUILD.dawn"), []byte(b.String()), 0o644)
+	pj.PauseHook = func(string) {
+		for i := 0; i < 3; i++ {
+			runtime.Gosched()
+		}
+	}
+	pj.ResetTicks(s.Root)
+	res := pj.Build(pj.BuildReq{Root: s.Root, Target: "//:all", Always: true})
+	c.Eval(fmt.Sprintf("%s/%d/%d", id, nkeys, ntg))
+	c.Count("parallel_project_builds", 1)
+	if res.LoadErr != "" || res.RunErr != "" {
+		c.Violation(id, "", "parallel-build-with-shared-cache-fails", map[string]any{"error": res.LoadErr + res.RunErr})
+		return
+	}
+	for key, n := range pj.TicksFor(s.Root) {
+		if strings.HasPrefix(key, "once:") && n != 1 {
+			c.Violation(id, "", "callable-invoked-successfully-more-than-once-for-a-key", map[string]any{"key": key, "invocations": n, "targets": ntg, "where": "parallel targets of one build sharing a module-level Cache"})
+		}
+	}
 }
